@@ -132,6 +132,18 @@ def check_case(case, impl, model):
         if err in (0, 1):
             out.append(("spec", i, "strict mode, input fed byte by byte: the extension '%s' was accepted (status %d, value %s)" % (kind, err, val)))
         return out
+    if mode == "default-chunked":
+        for i in range(1, len(case["lines"])):
+            if i >= len(impl) or " ## " not in impl[i]:
+                return out
+            err, end, val = tokoracle.fields(impl[i])
+            if err != 1:
+                break
+        if err != 0:
+            out.append(("spec", i, "default mode, input cut into several calls: the extension '%s' was rejected (status %d)" % (kind, err)))
+        elif ex["neutral"] and val != ex["val"]:
+            out.append(("spec", i, "default mode, input cut into several calls: '%s' accepted but the value %s differs from the original document's %s" % (kind, val, ex["val"])))
+        return out
     i = 1
     if i >= len(impl) or " ## " not in impl[i]:
         return out
@@ -184,3 +196,15 @@ def gen(rng, tier):
                        "keep": 1, "noshrink": True, "expect": {"mode": "strict-chunked", "kind": kind}}
             yield {"lines": ["new 32 0", "pz " + hexs(text)], "keep": 2, "noshrink": True,
                    "expect": {"mode": "default", "kind": kind, "neutral": neutral, "val": a["dump"]}}
+            # default mode accepts the extension however the text is cut into calls (byte by byte, and cut once at a
+            # random position): the token scratch state that default mode edits - e.g. the trimmed digit-less exponent -
+            # has to survive a chunk boundary
+            if len(text) <= 60 and 0 not in text and kind != "trailing":
+                yield {"lines": ["new 32 0"] + ["p " + hexs(text[j:j + 1]) for j in range(len(text))] + ["p 00"],
+                       "keep": 1, "noshrink": True,
+                       "expect": {"mode": "default-chunked", "kind": kind, "neutral": neutral, "val": a["dump"]}}
+            if len(text) >= 2 and 0 not in text and kind != "trailing":
+                cut = rng.randrange(1, len(text))
+                yield {"lines": ["new 32 0", "p " + hexs(text[:cut]), "p " + hexs(text[cut:]), "p 00"],
+                       "keep": 1, "noshrink": True,
+                       "expect": {"mode": "default-chunked", "kind": kind, "neutral": neutral, "val": a["dump"]}}
